@@ -64,6 +64,7 @@ func (db *DB) queryForRemote(ctx context.Context, sqlString string, isSubQuery b
 type remoteResult struct {
 	partition     int
 	fields        core.Fields
+	isRow         bool
 	key           bytemap.ByteMap
 	vals          core.Vals
 	flatRow       *core.FlatRow
@@ -179,6 +180,7 @@ func (db *DB) queryCluster(ctx context.Context, sqlString string, isSubQuery boo
 						}
 						results <- &remoteResult{
 							partition: partition,
+							isRow:     true,
 							key:       key,
 							vals:      vals,
 						}
@@ -274,8 +276,8 @@ func (db *DB) queryCluster(ctx context.Context, sqlString string, isSubQuery boo
 				continue
 			}
 
-			// handle unflat rows
-			if result.key != nil {
+			// handle unflat rows (note - the key is empty when grouping by nothing)
+			if result.isRow {
 				if stopped() || finalErr() != nil {
 					continue
 				}
